@@ -147,6 +147,16 @@ def div(op, input, other):
     return QBytesTensor(input.qtype, input.axis, input.size(), input.stride(), input._data, op(input._scale, other))
 
 
+@register_qbytestensor_op([torch.ops.aten.div_, torch.ops.aten.mul_])
+def inplace_scalar_op(op, input, other):
+    if not isinstance(input, QBytesTensor) or not is_scalar(other):
+        raise NotImplementedError("In-place multiplication or division of a QBytesTensor is only supported for scalars")
+    # We just rescale: the scale is replaced and not modified in-place because it may be shared (i.e with a module buffer)
+    functional_op = torch.ops.aten.div if op == torch.ops.aten.div_ else torch.ops.aten.mul
+    input._scale = functional_op(input._scale, other)
+    return input
+
+
 @register_qbytestensor_op([torch.ops.aten.neg])
 def neg(op, input, *args, **kwargs):
     if input.qtype.is_floating_point:
